@@ -24,7 +24,7 @@ def r_group_table_who(ctx: Ctx, rule: str) -> None:
     effs = [e for e in ctx.effects(fields=["_task_groups"], kinds=["remove", "clear", "assign"]) if ctx.in_pool(e.node.func)]
     rep.floor(rule, "removals from the group table", len([e for e in effs if e.path == "self._task_groups" and e.kind != "assign"]), 2)
     for e in effs:
-        hosts = ctx.hosts(e.node.func)
+        hosts = ctx.hosts_of(e.node)
         if e.path == "self._task_groups":
             allowed = {"cancel_group", "cancel_all"} if e.kind != "assign" else {"__init__"}
         else:
@@ -33,4 +33,4 @@ def r_group_table_who(ctx: Ctx, rule: str) -> None:
     regrem = [e for e in ctx.effects(kinds=["remove", "clear"]) if e.path in ("<group_reg>", "self._task_groups[]") and ctx.in_pool(e.node.func)]
     rep.floor(rule, "removals from a group register", len(regrem), 1)
     for e in regrem:
-        rep.ob(rule, "ids leave a group register only when the group is cancelled", ctx.hosts(e.node.func) <= {"_cancel_and_remove_all_from_group"}, node=e.node)
+        rep.ob(rule, "ids leave a group register only when the group is cancelled", ctx.hosts_of(e.node) <= {"_cancel_and_remove_all_from_group"}, node=e.node)
